@@ -55,6 +55,7 @@ type Case struct {
 	Wide      bool              `json:"wide,omitempty"`       // a hop below a list of hundreds of objects (oracle only: too large for the model evaluation)
 	Mutation  bool              `json:"mutation,omitempty"`   // the selection set is run as a mutation (the services mirror their Query fields on Mutation)
 	NumSeed   uint64            `json:"num_seed,omitempty"`   // != 0: the numeric-extremes scenario (numbers.go) with this seed instead of a generated federation
+	Overlap   bool              `json:"overlap,omitempty"`    // the overlapping-refreshes scenario (refresh_overlap.go: the poller against a SchemaSyncer double with a slow fetch)
 }
 
 // ---- universe: all fields of all types, then a partition over services ----
